@@ -11,7 +11,7 @@ import (
 func init() {
 	register(&Check{
 		ID: "C05", Level: "exploration", QuickSecs: 150, ThoroughSecs: 1500,
-		Rule:        "skeletons over {'a','b',#{},&{}} x {?,*,+,&,!} x seq/choice (arity<=3) up to N nodes (quick 5, thorough 6) under a rule-level action, plus one label+action decoration per node for N<=3 and a rule call variant; plus 18 left-recursive grammars (-support-left-recursion, with and without -optimize-parser; state blocks in the base alternative, in the operand and before the recursion; inputs up to length 4); every #{} appends its id to a string value (shallow copy), to a Cloner list mutated IN PLACE and to globalStore; action and predicate blocks attempt the same mutations (two scripts: all blocks return normally / all blocks also return an error); every block snapshots state and globalStore. Inputs over {a,b} up to L=3, InitState on/off, 2 generation flag sets. Every snapshot and the final store are compared with the reference (immutable store threaded through the evaluation; failing expression = store unchanged; &/! always restore; block-local changes dropped; globalStore append-only). The pool shim additionally checks the pool discipline (no double Put, no non-empty map from Get). Non-trivial = a state change was followed by a failure of an enclosing expression (reference backtracked after a #{} ran).",
+		Rule:        "skeletons over {'a','b',#{},&{},!{}} x {?,*,+,&,!} x seq/choice (arity<=3) up to N nodes (quick 5, thorough 6) under a rule-level action, plus one label+action decoration per node for N<=3 and a rule call variant; plus 18 left-recursive grammars (-support-left-recursion, with and without -optimize-parser; state blocks in the base alternative, in the operand and before the recursion; inputs up to length 4); every #{} appends its id to a string value (shallow copy), to a Cloner list mutated IN PLACE and to globalStore; action and predicate blocks attempt the same mutations (two scripts: all blocks return normally / all blocks also return an error); every block snapshots state and globalStore. Inputs over {a,b} up to L=3, InitState on/off, 2 generation flag sets. Every snapshot and the final store are compared with the reference (immutable store threaded through the evaluation; failing expression = store unchanged; &/! always restore; block-local changes dropped; globalStore append-only). The pool shim additionally checks the pool discipline (no double Put, no non-empty map from Get). Non-trivial = a state change was followed by a failure of an enclosing expression (reference backtracked after a #{} ran).",
 		Assumptions: []string{"E1 loader", "position/text seen by non-action blocks are C02's concern and are masked here"},
 		Run:         runC05,
 	})
@@ -29,7 +29,7 @@ func runC05(c *ShardCtx) {
 	if c.Thorough() {
 		n = 6
 	}
-	leaves := []*peg.Expr{peg.Lit("a"), peg.Lit("b"), peg.StateCode(0), peg.AndCode(0)}
+	leaves := []*peg.Expr{peg.Lit("a"), peg.Lit("b"), peg.StateCode(0), peg.AndCode(0), peg.NotCode(0)}
 	en := peg.NewEnumerator(peg.Alphabet{Leaves: leaves, Unary: allUnary, Seq: true, Choice: true, MaxArity: 3})
 	inputs := peg.Inputs([]string{"a", "b"}, 3)
 	opts := []rtapi.RunOpts{{MaxExpr: 200, InitState: true}, {MaxExpr: 200}}
@@ -40,6 +40,9 @@ func runC05(c *ShardCtx) {
 		s := map[int]*rtapi.Block{}
 		for _, b := range g.Blocks() {
 			s[b.ID] = &rtapi.Block{Ops: allOps, Pred: rtapi.PredTrue}
+			if b.K == peg.KNotCode {
+				s[b.ID].Pred = rtapi.PredFalse // the predicate holds: parsing goes on after its block mutated the stores
+			}
 			if withErr {
 				s[b.ID].Err = "e" + itoa(b.ID)
 			}
